@@ -425,6 +425,8 @@ func checkValue(c *core.Case, e *entry, v any, why string, smp *valueSample) (fi
 	if d, _ := e.compare(v1, v2, false); d != nil {
 		violate(c, "codec:F:"+typ+":"+d.Field, "decoded value is not a fixpoint: %s\nfirst: %s\nsecond: %s", d.Detail, qb(good[0].B), qb(b2.B))
 	}
+	// the decoded values are values of the type like any other (last use of v2)
+	exerciseDecoded(c, e, v2, "decoded own encoding")
 	return
 }
 
